@@ -23,17 +23,23 @@ def assert_repo_code():
 
 
 def drive(coro):
-    """Run a coroutine that never awaits to completion (tool bodies have no await).
-    If it does await, say so loudly: the sequential engines must not be used then."""
+    """Run a tool coroutine to completion outside any event loop.  Tool bodies have no await today; a bare
+    yield (``await asyncio.sleep(0)``) is resumed at once -- in a process of its own that is all it means.
+    Awaiting a real future cannot be driven here and is a harness error, never a verdict."""
     try:
-        coro.send(None)
+        while True:
+            y = coro.send(None)
+            if y is not None:
+                coro.close()
+                raise AwaitedError(f"tool coroutine awaited {y!r}; only SimLoop can drive that")
     except StopIteration as e:
         return e.value
-    coro.close()
-    raise AwaitedError("tool coroutine awaited something; drive it under SimLoop instead")
 
 
-class AwaitedError(Exception):
+from .seam import HarnessError  # noqa: E402
+
+
+class AwaitedError(HarnessError):
     pass
 
 
